@@ -25,7 +25,7 @@ THEOREMS = {"CbProps.C11": ["CbProps.C11." + t for t in ["keyL_injective", "cach
                 "substIdents_tokenwise", "param_replaced", "plain_ident_kept", "underscore_ident_kept", "normalized_without_params_kept",
                 "normalized_args_replaced", "no_params_unchanged", "substGeneric_tree", "depth_lt_length", "substTypeString_generic",
                 "substTypeString_declarator"]],
-            "CbOblig.C11": ["CbOblig.C11.key_format_is_modelled", "CbOblig.C11.clone_copies_every_child", "CbOblig.C11.subst_visits_every_child"]}
+            "CbOblig.C11": ["CbOblig.C11.key_format_is_modelled", "CbOblig.C11.clone_copies_every_child", "CbOblig.C11.subst_visits_every_child", "CbOblig.C11.clone_copies_every_field"]}
 
 TYWORDS = ["tiny", "short", "int", "long", "char", "bool"]
 FUNC_RE = re.compile(r"^([a-z][\w ]*?) (\w+)\(([^\n]*)\) \{\n(.*?)^\}\n", re.S | re.M)
@@ -127,6 +127,8 @@ TEMPLATES = [
      lambda f, ts, k: "    println(%s(%s));\n" % (f, SAMPLES[ts[0]][k % 3])),
     ("tally2", 1, None, "int tally2<T>(T v) {\n    static int calls = 0;\n    plain_note(1);\n    calls = calls + 10;\n    return calls;\n}\n",
      lambda f, ts, k: "    println(%s(%s));\n" % (f, SAMPLES[ts[0]][k % 3])),
+    ("spread", 1, NUMERIC, "T spread<T>(T v) {\n    T[4] a = [v, v, v, v];\n    int i = 0;\n    a[i++] += 10;\n    a[i++] *= 2;\n    a[--i] -= 1;\n    return a[0] + a[1] + a[2] + a[3] + i;\n}\n",
+     lambda f, ts, k: "    println(%s(%d));\n" % (f, 2 + k)),
     ("sw", 1, NUMERIC, "int sw<T>(T v) {\n    switch (v) {\n        case (1) {\n            return 10;\n        }\n        case (2) {\n            return 20;\n        }\n        else {\n            return 30;\n        }\n    }\n    return 0;\n}\n",
      lambda f, ts, k: "    println(%s(%d));\n" % (f, 1 + k % 3)),
 ]
